@@ -165,7 +165,7 @@ func c13Case(c *checker, api string, t byte, b []byte) {
 	var got uint64
 	var modelOp string
 	switch api {
-	case "env-stream", "env-decode":
+	case "env-stream", "env-decode", "env-stream-seekable":
 		wdEnter("A env " + hx(b))
 	case "frame", "frame8", "frame-after-large":
 		wdEnter("A frame " + hx(b))
@@ -180,6 +180,14 @@ func c13Case(c *checker, api string, t byte, b []byte) {
 			modelOp = fmt.Sprintf("A stream %d %s", t, hx(b))
 			got = measure(func() {
 				sr := binary.Default.Reader(newChunkReader(b, nil))
+				_ = drain(sr, t)
+				sr.Close()
+			})
+		case "stream-seekable":
+			// the streaming reader over a source that can seek (a file, a bytes.Reader): what the
+			// source "has" beyond its end must not be taken on trust
+			got = measure(func() {
+				sr := binary.Default.Reader(bytes.NewReader(b))
 				_ = drain(sr, t)
 				sr.Close()
 			})
@@ -202,6 +210,16 @@ func c13Case(c *checker, api string, t byte, b []byte) {
 				sr := binary.NewStreamReader(newChunkReader(b, nil))
 				_, _ = sr.ReadEnvelopeBegin()
 				sr.Close()
+			})
+		case "env-stream-seekable":
+			got = measure(func() {
+				sr := binary.NewStreamReader(bytes.NewReader(b))
+				_, _ = sr.ReadEnvelopeBegin()
+				sr.Close()
+			})
+		case "read-request-seekable":
+			got = measure(func() {
+				_, _ = binary.Default.ReadRequest(context.Background(), wire.Call, bytes.NewReader(b), drainBody{})
 			})
 		case "env-decode":
 			got = measure(func() {
@@ -353,7 +371,7 @@ func runC13(c *checker, r *rng.R) {
 	if *tier == "thorough" {
 		nVals = 40000
 	}
-	apis := []string{"stream", "stream-skip", "lazy"}
+	apis := []string{"stream", "stream-seekable", "stream-skip", "lazy"}
 	put32 := func(b []byte, off int, v uint32) []byte {
 		o := append([]byte{}, b...)
 		o[off], o[off+1], o[off+2], o[off+3] = byte(v>>24), byte(v>>16), byte(v>>8), byte(v)
@@ -405,9 +423,11 @@ func runC13(c *checker, r *rng.R) {
 			strict := append(append([]byte{0x80, 1, 0, 1}, put32(make([]byte, 4), 0, L)...), tail...)
 			for _, b := range [][]byte{legacy, strict} {
 				c13Case(c, "env-stream", 0, b)
+				c13Case(c, "env-stream-seekable", 0, b)
 				c13Case(c, "env-decode", 0, b)
 				c13Case(c, "decode-request", 0, b)
 				c13Case(c, "read-request", 0, b)
+				c13Case(c, "read-request-seekable", 0, b)
 			}
 			c13Case(c, "frame", 0, legacy)
 			c13Case(c, "frame8", 0, legacy)
@@ -440,7 +460,7 @@ func runC13(c *checker, r *rng.R) {
 	}
 	c13DeepNesting(c)
 	c.flushCost()
-	c.rep.Rule = "messages ≤ 64 bytes (random structs, optionally enveloped strict/legacy) with every 4-byte length/count position set to each of {2^16, 2^20-1, 2^20, 2^20+1, 2^24, 2^27, 2^31-1, 0xffffffff, 0x80000000}; top-level containers of every element type (the 11 defined codes and 12 undefined ones); envelope name length; frame length (also with the frame reader's threshold lowered to 8 bytes and 7..40 bytes of the frame present, and on a reader that has read a genuine frame of 33 MiB before) × APIs {stream primitives, Skip, Decode+EvaluateValue, ReadEnvelopeBegin, DecodeEnveloped, DecodeRequest, ReadRequest, frame reader}; the random-access APIs alternately over a bytes.Reader and over a source that has ReadAt and nothing else; deeply nested valid containers (1 item per level, up to 8000 levels: work must stay linear — known finding D79 for the lazy decoder); measured = runtime TotalAlloc delta; every case non-trivial; distinct by (api, bytes)"
+	c.rep.Rule = "messages ≤ 64 bytes (random structs, optionally enveloped strict/legacy) with every 4-byte length/count position set to each of {2^16, 2^20-1, 2^20, 2^20+1, 2^24, 2^27, 2^31-1, 0xffffffff, 0x80000000}; top-level containers of every element type (the 11 defined codes and 12 undefined ones); envelope name length; frame length (also with the frame reader's threshold lowered to 8 bytes and 7..40 bytes of the frame present, and on a reader that has read a genuine frame of 33 MiB before) × APIs {stream primitives (over a plain reader and over a seekable one), Skip, Decode+EvaluateValue, ReadEnvelopeBegin, DecodeEnveloped, DecodeRequest, ReadRequest (plain and seekable source), ReadEnvelopeBegin over a seekable source, frame reader}; the random-access APIs alternately over a bytes.Reader and over a source that has ReadAt and nothing else; deeply nested valid containers (1 item per level, up to 8000 levels: work must stay linear — known finding D79 for the lazy decoder); measured = runtime TotalAlloc delta; every case non-trivial; distinct by (api, bytes)"
 	_ = strings.TrimSpace
 }
 
